@@ -8,7 +8,7 @@ Open Scope N_scope.
 (* callbacks that schedule nothing and do not touch the life-cycle *)
 Definition inert (t : thunk) : Prop :=
   match t with
-  | TLeaf (LUserDone _ _) | TLeaf (LLeaveK _) | TLeaf (LDiscK _) | TLeaf (LCancelSend _) | TLeaf (LYield _) => True
+  | TLeaf (LUserDone _ _) | TLeaf (LLeaveK _) | TLeaf (LCancelSend _) | TLeaf (LYield _) => True
   | _ => False
   end.
 
@@ -166,7 +166,7 @@ Lemma inert_semi : forall Q, Forall inert Q -> Forall semi Q /\ existsb is_ld Q 
 Proof.
   induction Q as [|t r IH]; intro H; [split; [constructor | reflexivity]|].
   inversion H as [|? ? Ht Hr]; subst. destruct (IH Hr) as [A B]. split; [constructor; [now left | assumption]|].
-  simpl. rewrite B. destruct t as [l| | |]; try contradiction. destruct l; try contradiction; reflexivity.
+  simpl. rewrite B. destruct t as [l| | | |]; try contradiction. destruct l; try contradiction; reflexivity.
 Qed.
 
 Lemma run_semi_one : forall cfg s t, semi t ->
@@ -175,10 +175,9 @@ Lemma run_semi_one : forall cfg s t, semi t ->
   /\ topen (fst r) = (if is_ld t && transport s then false else topen s).
 Proof.
   intros cfg s t [Hi| ->].
-  - destruct t as [l| | |]; try contradiction. destruct l; try contradiction; simpl.
+  - destruct t as [l| | | |]; try contradiction. destruct l; try contradiction; simpl.
     + pose proof (LQ_react cfg s f) as [A B]. destruct (react_tq cfg s f) as [C D].
       destruct (react cfg s f) as [s2 o2]. simpl in *. repeat split; assumption.
-    + destruct raised; repeat split; reflexivity.
     + destruct raised; repeat split; reflexivity.
     + destruct (transport s); [|repeat split; reflexivity].
       assert (Hm : forall r, MCancel id <> MGoodbye r) by (intros r E; discriminate).
@@ -223,6 +222,44 @@ Qed.
 Lemma turn_empty : forall cfg s, queue s = [] -> step Aio cfg s OTurn = (set_queue s [], []).
 Proof. intros cfg s H. unfold step. rewrite H. reflexivity. Qed.
 
+(* the continuation of onDisconnect (the final sweep of onClose) is not inert: it schedules the callbacks of the
+   futures it rejects -- those are inert; so two loop iterations still settle everything *)
+Definition semi2 (t : thunk) : Prop := semi t \/ exists r, t = TDiscK r.
+
+Lemma run_semi2_one : forall cfg s t, semi2 t ->
+  let r := run_thunk Aio cfg s t in
+  levs (snd r) = [] /\ lcore (fst r) = lcore s /\ (exists Q', queue (fst r) = queue s ++ Q' /\ Forall inert Q')
+  /\ topen (fst r) = (if is_ld t && transport s then false else topen s).
+Proof.
+  intros cfg s t [Hs|[r0 ->]].
+  - destruct (run_semi_one cfg s t Hs) as [A [B [C D]]]. repeat split; try assumption.
+    exists []. rewrite app_nil_r. split; [assumption | constructor].
+  - simpl. pose proof (LQ_errback_all Aio cfg s ETransportLost) as [A1 B1].
+    pose proof (QQ_errback_all Aio cfg s ETransportLost) as [T1 [Q1 [E1 F1]]].
+    destruct (errback_all Aio cfg s ETransportLost) as [s1 o1]. simpl in *.
+    rewrite levs_app, A1. split; [destruct r0; reflexivity|]. split; [assumption|]. split; [|assumption].
+    exists Q1. split; assumption.
+Qed.
+
+Lemma run_semi2 : forall cfg Q s, Forall semi2 Q ->
+  let r := run_queue Aio cfg s Q in
+  levs (snd r) = [] /\ lcore (fst r) = lcore s /\ (exists Q', queue (fst r) = queue s ++ Q' /\ Forall inert Q')
+  /\ topen (fst r) = (if existsb is_ld Q && transport s then false else topen s).
+Proof.
+  induction Q as [|t r IH]; intros s H; simpl.
+  - repeat split; try reflexivity. exists []. rewrite app_nil_r. split; [reflexivity | constructor].
+  - inversion H as [|? ? Ht Hr]; subst.
+    destruct (run_semi2_one cfg s t Ht) as [A1 [B1 [[Q1 [C1 F1]] D1]]]. destruct (run_thunk Aio cfg s t) as [s1 o1]. simpl in *.
+    destruct (IH s1 Hr) as [A2 [B2 [[Q2 [C2 F2]] D2]]]. destruct (run_queue Aio cfg s1 r) as [s2 o2]. simpl in *.
+    assert (Htr : transport s1 = transport s) by (unfold lcore in B1; inversion B1; reflexivity).
+    rewrite levs_app, A1, A2. repeat split; try congruence.
+    + exists (Q1 ++ Q2). split; [rewrite C2, C1, app_assoc; reflexivity | apply Forall_app; split; assumption].
+    + rewrite D2, D1, Htr. destruct (is_ld t); destruct (existsb is_ld r); destruct (transport s); reflexivity.
+Qed.
+
+Lemma semi_semi2 : forall Q, Forall semi Q -> Forall semi2 Q.
+Proof. intros Q H. eapply Forall_impl; [|exact H]. intros t Ht. now left. Qed.
+
 (* ---- the default onLeave / onDisconnect in both flavours: life-cycle, topen, queue ---- *)
 Definition leave_queue (cfg : ucfg) (Q : list thunk) : Prop :=
   Forall semi Q /\ existsb is_ld Q = u_leave_super cfg.
@@ -260,19 +297,42 @@ Qed.
 
 Lemma any_onDisconnect : forall fl cfg s,
   let r := (let '(s4, o4, raised) := do_onDisconnect fl cfg s in
-            let '(s5, o5) := defer_leaf fl cfg s4 (LDiscK raised) in (s5, o4 ++ o5)) in
-  levs (snd r) = [LvDisconnect] /\ lcore (fst r) = lcore s /\ QQ fl s (fst r).
+            let '(s5, o5) := defer fl cfg s4 (TDiscK raised) in (s5, o4 ++ o5)) in
+  levs (snd r) = [LvDisconnect] /\ lcore (fst r) = lcore s /\ topen (fst r) = topen s /\
+  match fl with
+  | Tx => queue (fst r) = queue s
+  | Aio => exists Q, queue (fst r) = queue s ++ Q /\ Forall semi2 Q /\ existsb is_ld Q = false /\ exists r0, In (TDiscK r0) Q
+  end.
 Proof.
-  intros fl cfg s. unfold do_onDisconnect. destruct (u_disc_super cfg).
-  - pose proof (LQ_errback_all fl cfg s ETransportLost) as [A1 B1]. pose proof (QQ_errback_all fl cfg s ETransportLost) as H1.
-    destruct (errback_all fl cfg s ETransportLost) as [s1 o1]. simpl in *.
-    destruct fl; simpl.
-    + destruct (u_disc_raises cfg); simpl; rewrite levs_app, A1; (split; [reflexivity | split; [assumption | exact H1]]).
-    + rewrite app_nil_r, A1. split; [reflexivity | split; [assumption|]]. eapply QQ_trans; [exact H1|].
-      split; [reflexivity|]. exists [TLeaf (LDiscK (u_disc_raises cfg))]. split; [reflexivity | repeat constructor].
-  - destruct fl; simpl.
-    + destruct (u_disc_raises cfg); (split; [reflexivity | split; [reflexivity | apply QQ_refl]]).
-    + split; [reflexivity | split; [reflexivity|]]. split; [reflexivity|]. exists [TLeaf (LDiscK (u_disc_raises cfg))]. split; [reflexivity | repeat constructor].
+  intros fl cfg s.
+  assert (Hfin : forall s4 raised, lcore s4 = lcore s -> topen s4 = topen s ->
+            match fl with Tx => queue s4 = queue s
+                        | Aio => exists Q, queue s4 = queue s ++ Q /\ Forall inert Q end ->
+            let r5 := defer fl cfg s4 (TDiscK raised) in
+            levs (snd r5) = [] /\ lcore (fst r5) = lcore s /\ topen (fst r5) = topen s /\
+            match fl with
+            | Tx => queue (fst r5) = queue s
+            | Aio => exists Q, queue (fst r5) = queue s ++ Q /\ Forall semi2 Q /\ existsb is_ld Q = false /\ exists r0, In (TDiscK r0) Q
+            end).
+  { intros s4 raised Hl Ht Hq. destruct fl; cbn [defer run_thunk].
+    - pose proof (LQ_errback_all Tx cfg s4 ETransportLost) as [A1 B1]. pose proof (QQ_errback_all Tx cfg s4 ETransportLost) as [T1 Q1].
+      destruct (errback_all Tx cfg s4 ETransportLost) as [s5 o5]. simpl in *.
+      rewrite levs_app, A1. split; [destruct raised; reflexivity|]. repeat split; congruence.
+    - cbn [fst snd levs]. split; [reflexivity|]. split; [exact Hl|]. split; [exact Ht|].
+      destruct Hq as [Q [E F]]. exists (Q ++ [TDiscK raised]). destruct (inert_semi Q F) as [S N]. split; [|split; [|split]].
+      + unfold enqueue. cbn [queue set_queue]. rewrite E, app_assoc. reflexivity.
+      + apply Forall_app. split; [now apply semi_semi2 | constructor; [right; eexists; reflexivity | constructor]].
+      + rewrite existsb_app, N. reflexivity.
+      + exists raised. apply in_or_app. right. now left. }
+  unfold do_onDisconnect. destruct (u_disc_super cfg).
+  - pose proof (LQ_errback_all fl cfg s ETransportLost) as [A1 B1]. pose proof (QQ_errback_all fl cfg s ETransportLost) as [T1 Q1].
+    destruct (errback_all fl cfg s ETransportLost) as [s1 o1]. cbn [fst snd] in *.
+    specialize (Hfin s1 (u_disc_raises cfg) B1 T1 Q1). destruct (defer fl cfg s1 (TDiscK (u_disc_raises cfg))) as [s5 o5].
+    cbn [fst snd] in *. destruct Hfin as [A5 R5]. rewrite !levs_app, A1, A5. split; [reflexivity | exact R5].
+  - assert (Hq : match fl with Tx => queue s = queue s | Aio => exists Q, queue s = queue s ++ Q /\ Forall inert Q end).
+    { destruct fl; [reflexivity|]. exists []. rewrite app_nil_r. split; [reflexivity | constructor]. }
+    specialize (Hfin s (u_disc_raises cfg) eq_refl eq_refl Hq). destruct (defer fl cfg s (TDiscK (u_disc_raises cfg))) as [s5 o5].
+    cbn [fst snd] in *. destruct Hfin as [A5 R5]. rewrite !levs_app, A5. split; [reflexivity | exact R5].
 Qed.
 
 (* ---- the transport-open flag, exactly (Twisted) ---- *)
@@ -322,7 +382,7 @@ Proof.
                    let '(s2, o2) := defer_leaf Tx cfg s1 (LLeaveK raised) in (set_sid s2 None, o1 ++ o2)
               else (s0, [])) as [s3 o3]. simpl in H3.
     pose proof (any_onDisconnect Tx cfg s3) as [_ [_ [A _]]].
-    destruct (do_onDisconnect Tx cfg s3) as [[s4 o4] raised]. destruct (defer_leaf Tx cfg s4 (LDiscK raised)) as [s5 o5].
+    destruct (do_onDisconnect Tx cfg s3) as [[s4 o4] raised]. destruct (defer Tx cfg s4 (TDiscK raised)) as [s5 o5].
     simpl in *. congruence.
   - reflexivity.
   - (* ALeave *)
@@ -418,6 +478,35 @@ Proof.
   rewrite app_nil_r. repeat split; assumption.
 Qed.
 
+Lemma turn2_semi2 : forall cfg s1, Forall semi2 (queue s1) ->
+  let r := turn2 cfg s1 in
+  levs (snd r) = [] /\ lcore (fst r) = lcore s1 /\ queue (fst r) = []
+  /\ topen (fst r) = (if existsb is_ld (queue s1) && transport s1 then false else topen s1).
+Proof.
+  intros cfg s1 H. unfold turn2.
+  assert (H1 : let r := step Aio cfg s1 OTurn in
+               levs (snd r) = [] /\ lcore (fst r) = lcore s1 /\ Forall inert (queue (fst r))
+               /\ topen (fst r) = (if existsb is_ld (queue s1) && transport s1 then false else topen s1)).
+  { unfold step. cbv beta iota. destruct (run_semi2 cfg (queue s1) (set_queue s1 []) H) as [A [B [[Q' [C F]] D]]].
+    destruct (run_queue Aio cfg (set_queue s1 []) (queue s1)) as [s2 o2]. simpl in *. rewrite C. repeat split; assumption. }
+  destruct (step Aio cfg s1 OTurn) as [s2 o2]. cbn [fst snd] in *. destruct H1 as [A [B [F D]]].
+  destruct (inert_semi _ F) as [S N]. destruct (turn_semi cfg s2 S) as [A2 [B2 [C2 D2]]].
+  destruct (step Aio cfg s2 OTurn) as [s3 o3]. cbn [fst snd] in *. rewrite N in D2. simpl in D2.
+  rewrite levs_app, A, A2. repeat split; congruence.
+Qed.
+
+Lemma macro_semi2 : forall cfg s o Q,
+  queue (fst (step Aio cfg s o)) = Q -> Forall semi2 Q ->
+  let r := macro cfg s o in
+  levs (snd r) = levs (snd (step Aio cfg s o)) /\ lcore (fst r) = lcore (fst (step Aio cfg s o))
+  /\ topen (fst r) = (if existsb is_ld Q && transport (fst (step Aio cfg s o)) then false else topen (fst (step Aio cfg s o)))
+  /\ queue (fst r) = [].
+Proof.
+  intros cfg s o Q E F. unfold macro. destruct (step Aio cfg s o) as [s1 o1]. simpl in *. subst Q.
+  destruct (turn2_semi2 cfg s1 F) as [A2 [B2 [C2 D2]]]. destruct (turn2 cfg s1) as [s3 o23]. simpl in *.
+  rewrite levs_app, A2, app_nil_r. repeat split; assumption.
+Qed.
+
 Lemma macro_quiet : forall cfg s o,
   queue s = [] -> LQ s (fst (step Aio cfg s o)) (snd (step Aio cfg s o)) -> QQ Aio s (fst (step Aio cfg s o)) ->
   let r := macro cfg s o in
@@ -489,6 +578,98 @@ Proof.
     rewrite levs_app, levs_app, Hs. split; reflexivity.
 Qed.
 
+Lemma aio_lost_step : forall cfg s clean, queue s = [] -> transport s = true ->
+  exists Q, queue (fst (step Aio cfg s (OLost clean))) = Q /\ Forall semi2 Q /\ (exists r0, In (TDiscK r0) Q)
+              /\ levs (snd (step Aio cfg s (OLost clean))) = (if sid_truthy s then [LvLeave] else []) ++ [LvDisconnect]
+              /\ lcore (fst (step Aio cfg s (OLost clean))) = (opened s, false, (if sid_truthy s then None else sid s), goodbye_sent s)
+              /\ topen (fst (step Aio cfg s (OLost clean))) = false.
+Proof.
+  intros cfg s clean Hq Et.
+  set (s0 := set_conn s (opened s) false false).
+  assert (Hq0 : queue s0 = []) by exact Hq.
+ unfold step. cbv beta iota. rewrite Et. simpl negb. cbv iota. fold s0.
+      assert (Htr : sid_truthy s0 = sid_truthy s) by reflexivity. rewrite Htr.
+      destruct (sid_truthy s) eqn:Est.
+      - pose proof (aio_leave_then cfg s0 RsTransportLost) as H.
+        destruct (do_onLeave Aio cfg s0 RsTransportLost) as [[s1 o1] raised].
+        destruct (defer_leaf Aio cfg s1 (LLeaveK raised)) as [s2 o2]. cbn [fst snd] in H.
+        destruct H as [A [B [C [Q [E [F G]]]]]].
+        pose proof (any_onDisconnect Aio cfg (set_sid s2 None)) as H4.
+        destruct (do_onDisconnect Aio cfg (set_sid s2 None)) as [[s4 o4] raised4].
+        destruct (defer Aio cfg s4 (TDiscK raised4)) as [s5 o5]. cbn [fst snd] in *.
+        destruct H4 as [A4 [B4 [T4 [Q4 [E4 [F4 [N4 [r4 I4]]]]]]]].
+        exists (Q ++ Q4). split; [|split; [|split; [|split; [|split]]]].
+        + rewrite E4. cbn [queue set_sid]. rewrite E, Hq0. reflexivity.
+        + apply Forall_app. split; [apply semi_semi2; assumption | exact F4].
+        + exists r4. apply in_or_app. now right.
+        + rewrite levs_app, A, A4. reflexivity.
+        + rewrite B4. unfold lcore in *. cbn in *. inversion B. reflexivity.
+        + rewrite T4. cbn. rewrite C. reflexivity.
+      - pose proof (any_onDisconnect Aio cfg s0) as H4.
+        destruct (do_onDisconnect Aio cfg s0) as [[s4 o4] raised4].
+        destruct (defer Aio cfg s4 (TDiscK raised4)) as [s5 o5]. cbn [fst snd] in *.
+        destruct H4 as [A4 [B4 [T4 [Q4 [E4 [F4 [N4 [r4 I4]]]]]]]].
+        exists Q4. split; [|split; [|split; [|split; [|split]]]].
+        + rewrite E4, Hq0. reflexivity.
+        + exact F4.
+        + exists r4. exact I4.
+        + exact A4.
+        + rewrite B4. reflexivity.
+        + rewrite T4. reflexivity. Qed.
+
+(* ---- asyncio: the final sweep of onClose runs one loop iteration after the loss ---- *)
+Lemma semi2_pend_one : forall cfg s t, semi2 t -> transport s = false ->
+  let s' := fst (run_thunk Aio cfg s t) in
+  (pend s' = pend s \/ pend s' = []) /\ ((exists r, t = TDiscK r) -> pend s' = []).
+Proof.
+  intros cfg s t H Ht. destruct H as [[Hi| ->]|[r0 ->]].
+  - destruct t as [l| | | |]; try contradiction. destruct l; try contradiction; simpl.
+    + pose proof (sweep_react (fun _ => True) cfg s f) as Hs. destruct (react cfg s f) as [s2 o2]. simpl in *.
+      split; [left; exact (sw_quiet _ _ _ Hs Ht) | intros [r0 E]; discriminate E].
+    + split; [now left | intros [r0 E]; discriminate E].
+    + rewrite Ht. split; [now left | intros [r0 E]; discriminate E].
+    + rewrite Ht. split; [now left | intros [r0 E]; discriminate E].
+  - simpl. rewrite Ht. split; [now left | intros [r0 E]; discriminate E].
+  - simpl. destruct (errback_all_spec Aio cfg s ETransportLost) as [_ [_ [C _]]].
+    destruct (errback_all Aio cfg s ETransportLost) as [s1 o1]. simpl in *.
+    rewrite (C (or_introl Ht)). split; [now right | reflexivity].
+Qed.
+
+Lemma run_semi2_pend : forall cfg Q s, Forall semi2 Q -> transport s = false ->
+  (pend s = [] \/ exists r, In (TDiscK r) Q) -> pend (fst (run_queue Aio cfg s Q)) = [].
+Proof.
+  induction Q as [|t r IH]; intros s H Ht Hp; simpl.
+  - destruct Hp as [Hp|[r0 []]]. exact Hp.
+  - inversion H as [|? ? Hs Hr]; subst.
+    destruct (semi2_pend_one cfg s t Hs Ht) as [P1 P2]. destruct (run_semi2_one cfg s t Hs) as [_ [B1 _]].
+    destruct (run_thunk Aio cfg s t) as [s1 o1]. simpl in *.
+    assert (Ht1 : transport s1 = false) by (unfold lcore in B1; inversion B1; congruence).
+    assert (Hp1 : pend s1 = [] \/ exists r0, In (TDiscK r0) r).
+    { destruct Hp as [Hp|[r0 [E|Hin]]].
+      - left. destruct P1 as [E|E]; congruence.
+      - left. apply P2. exists r0. exact E.
+      - right. exists r0. exact Hin. }
+    specialize (IH s1 Hr Ht1 Hp1). destruct (run_queue Aio cfg s1 r) as [s2 o2]. exact IH.
+Qed.
+
+(* a settled loop, then the transport is lost: after the next loop iteration the tables are empty, whatever the user's
+   onLeave / onDisconnect do *)
+Theorem aio_lost_clears : forall cfg s clean, queue s = [] -> transport s = true ->
+  let s1 := fst (step Aio cfg s (OLost clean)) in
+  let s2 := fst (step Aio cfg s1 OTurn) in
+  transport s2 = false /\ pend s2 = [].
+Proof.
+  intros cfg s clean Hq Et. destruct (aio_lost_step cfg s clean Hq Et) as [Q [EQ [FQ [[r0 IQ] [_ [BL _]]]]]].
+  cbv zeta. destruct (step Aio cfg s (OLost clean)) as [s1 o1]. cbn [fst snd] in *.
+  assert (Ht1 : transport s1 = false) by (unfold lcore in BL; inversion BL; reflexivity).
+  unfold step. cbv beta iota. rewrite EQ.
+  assert (Ht0 : transport (set_queue s1 []) = false) by exact Ht1.
+  pose proof (run_semi2_pend cfg Q (set_queue s1 []) FQ Ht0 (or_intror (ex_intro _ r0 IQ))) as HP.
+  destruct (run_semi2 cfg Q (set_queue s1 []) FQ) as [_ [B _]].
+  destruct (run_queue Aio cfg (set_queue s1 []) Q) as [s2 o2]. cbn [fst snd] in *.
+  split; [unfold lcore in B; inversion B; congruence | exact HP].
+Qed.
+
 Theorem aio_macro_spec : forall cfg s o, queue s = [] ->
   let r := macro cfg s o in
   levs (snd r) = spec_levs (aio_cfg cfg) s o /\ lcore (fst r) = spec_lcore (aio_cfg cfg) s o
@@ -536,39 +717,8 @@ Proof.
     2:{ apply Hquiet; unfold step, spec_levs, spec_lcore, spec_topen; rewrite ?Et; try reflexivity; [apply LQ_refl | apply QQ_refl]. }
     set (s0 := set_conn s (opened s) false false).
     assert (Hq0 : queue s0 = []) by exact Hq.
-    assert (Hstep : exists Q, queue (fst (step Aio cfg s (OLost clean))) = Q /\ Forall semi Q
-              /\ levs (snd (step Aio cfg s (OLost clean))) = (if sid_truthy s then [LvLeave] else []) ++ [LvDisconnect]
-              /\ lcore (fst (step Aio cfg s (OLost clean))) = (opened s, false, (if sid_truthy s then None else sid s), goodbye_sent s)
-              /\ topen (fst (step Aio cfg s (OLost clean))) = false).
-    { unfold step. cbv beta iota. rewrite Et. simpl negb. cbv iota. fold s0.
-      assert (Htr : sid_truthy s0 = sid_truthy s) by reflexivity. rewrite Htr.
-      destruct (sid_truthy s) eqn:Est.
-      - pose proof (aio_leave_then cfg s0 RsTransportLost) as H.
-        destruct (do_onLeave Aio cfg s0 RsTransportLost) as [[s1 o1] raised].
-        destruct (defer_leaf Aio cfg s1 (LLeaveK raised)) as [s2 o2]. cbn [fst snd] in H.
-        destruct H as [A [B [C [Q [E [F G]]]]]].
-        pose proof (any_onDisconnect Aio cfg (set_sid s2 None)) as H4.
-        destruct (do_onDisconnect Aio cfg (set_sid s2 None)) as [[s4 o4] raised4].
-        destruct (defer_leaf Aio cfg s4 (LDiscK raised4)) as [s5 o5]. cbn [fst snd] in *.
-        destruct H4 as [A4 [B4 [T4 [Q4 [E4 F4]]]]].
-        exists (Q ++ Q4). split; [|split; [|split; [|split]]].
-        + rewrite E4. cbn [queue set_sid]. rewrite E, Hq0. reflexivity.
-        + apply Forall_app. split; [assumption | apply (proj1 (inert_semi Q4 F4))].
-        + rewrite levs_app, A, A4. reflexivity.
-        + rewrite B4. unfold lcore in *. cbn in *. inversion B. reflexivity.
-        + rewrite T4. cbn. rewrite C. reflexivity.
-      - pose proof (any_onDisconnect Aio cfg s0) as H4.
-        destruct (do_onDisconnect Aio cfg s0) as [[s4 o4] raised4].
-        destruct (defer_leaf Aio cfg s4 (LDiscK raised4)) as [s5 o5]. cbn [fst snd] in *.
-        destruct H4 as [A4 [B4 [T4 [Q4 [E4 F4]]]]].
-        exists Q4. split; [|split; [|split; [|split]]].
-        + rewrite E4, Hq0. reflexivity.
-        + apply (proj1 (inert_semi Q4 F4)).
-        + exact A4.
-        + rewrite B4. reflexivity.
-        + rewrite T4. reflexivity. }
-    destruct Hstep as [Q [EQ [FQ [AL [BL TL]]]]].
-    destruct (macro_semi cfg s (OLost clean) Q EQ FQ) as [A [B [C D]]].
+    destruct (aio_lost_step cfg s clean Hq Et) as [Q [EQ [FQ [_ [AL [BL TL]]]]]].
+    destruct (macro_semi2 cfg s (OLost clean) Q EQ FQ) as [A [B [C D]]].
     cbv zeta. unfold spec_levs, spec_lcore, spec_topen. rewrite Et. rewrite A, B, C, AL, BL, TL.
     repeat split; try assumption. destruct (existsb is_ld Q && _); reflexivity.
   - (* OTurn *)
